@@ -10,7 +10,8 @@ fn main() {
     console::set_colors_enabled_stderr(false);
     if args.len() >= 2 && args[1] == "selftest" {
         let mut bad = 0;
-        for (n, r) in [("clock", clock::self_test()), ("vterm", vterm::self_test())] {
+        let cross = runner::catch(|| vterm::cross_check(1, 3000)).unwrap_or_else(|p| Err(format!("panicked: {p}"))).map(|n| println!("selftest vterm vs vt100: {n} screen comparisons agree"));
+        for (n, r) in [("clock", clock::self_test()), ("vterm", vterm::self_test()), ("vterm_vs_vt100", cross)] {
             match r {
                 Ok(()) => println!("selftest {n}: ok"),
                 Err(e) => {
